@@ -286,6 +286,44 @@ theorem distinct_nonces_partial (H : HashAlg → Hmac) (hl : ∀ a, HmacLaws (H 
   have := hinj s d s' d' hs hd hs' hd' (by rw [← hcat, ← hcat'])
   exact hne (by rw [this.1, this.2])
 
+/-- The key tuple determines, and is determined by, the first `sk + ek + bs` bytes of the stream. -/
+theorem makeKeys_eq_iff (H : HashAlg → Hmac) (hl : ∀ a, HmacLaws (H a)) (p : Policy)
+    (alg : HashAlg) (sk ek bs : Nat) (ht : part6Table p = some (alg, sk, ek, bs)) (s d s' d' : Bytes) :
+    makeKeys H p s d = makeKeys H p s' d' ↔
+      pHash (H alg) s d (sk + ek + bs) = pHash (H alg) s' d' (sk + ek + bs) := by
+  have h := lengths_match_part6 p
+  rw [ht] at h
+  have e1 := makeKeys_eq H hl p s d sk ek bs alg h.2.1 h.2.2 h.1
+  have e2 := makeKeys_eq H hl p s' d' sk ek bs alg h.2.1 h.2.2 h.1
+  constructor
+  · intro heq
+    obtain ⟨k, hk, hcat, _⟩ := keys_per_part6 H hl p s d alg sk ek bs ht
+    obtain ⟨k', hk', hcat', _⟩ := keys_per_part6 H hl p s' d' alg sk ek bs ht
+    rw [hk, hk'] at heq
+    have hkk : k = k' := by injection heq
+    subst hkk
+    rw [← hcat, ← hcat']
+  · intro heq
+    rw [e1, e2, heq]
+
+/-- **The injectivity hypothesis of `distinct_nonces_partial` is the weakest possible**: "different
+nonce pairs (of length `L`) give different key tuples" holds IF AND ONLY IF `P_hash` is injective on
+such nonces in its first `sk + ek + bs` bytes.  So the property's last sentence is exactly a
+statement about the hash, not about this code. -/
+theorem distinct_nonces_iff_inj (H : HashAlg → Hmac) (hl : ∀ a, HmacLaws (H a)) (p : Policy)
+    (alg : HashAlg) (sk ek bs L : Nat) (ht : part6Table p = some (alg, sk, ek, bs)) :
+    (∀ s d s' d' : Bytes, s.length = L → d.length = L → s'.length = L → d'.length = L →
+        (s, d) ≠ (s', d') → makeKeys H p s d ≠ makeKeys H p s' d') ↔
+      PHashInjOn (H alg) L (sk + ek + bs) := by
+  constructor
+  · intro hdist s d s' d' hs hd hs' hd' heq
+    by_cases hne : (s, d) = (s', d')
+    · injection hne with h1 h2; exact ⟨h1, h2⟩
+    · exact absurd ((makeKeys_eq_iff H hl p alg sk ek bs ht s d s' d').mpr heq)
+        (hdist s d s' d' hs hd hs' hd' hne)
+  · intro hinj s d s' d' hs hd hs' hd' hne
+    exact distinct_nonces_partial H hl p alg sk ek bs L ht hinj s d s' d' hs hd hs' hd' hne
+
 /-! ### the hypotheses are satisfiable; the concrete instance -/
 
 theorem wordBytes_length (w : Nat) : (wordBytes w).length = 4 := rfl
